@@ -91,6 +91,8 @@ class DISA(PartitionContainerBase):
 
         self.unique_identifier = readle(self._header[0x54:0x5C])
 
+        self._parttable_size = parttable_size
+
         self._seek(self._parttable_offset)
         parttable = self._file.read(parttable_size)
         if sha256(parttable).digest() != active_parttable_hash:
@@ -121,10 +123,12 @@ class DISA(PartitionContainerBase):
                 self._seek(self._parttable_offset + partdesc_offset)
                 self._file.write(partdesc)
 
-                partdesc_hash = sha256(partdesc)
+                # the header hash covers the whole active partition table, not just this descriptor
+                self._seek(self._parttable_offset)
+                parttable_hash = sha256(self._file.read(self._parttable_size))
 
                 header_ba = bytearray(self._header)
-                header_ba[0x6C:0x8C] = partdesc_hash.digest()
+                header_ba[0x6C:0x8C] = parttable_hash.digest()
                 self._header = bytes(header_ba)
 
                 self._seek(0x100)
